@@ -61,27 +61,49 @@ theorem drop_ne_nil {l : Octets} {k : Nat} (h1 : k ≤ l.length) (h2 : l.length 
   simp at this
   omega
 
+theorem count_drop_mono (P : Octets) {a b : Nat} (h : a ≤ b) : (P.drop b).count '/' ≤ (P.drop a).count '/' := by
+  have : P.drop a = (P.drop a).take (b - a) ++ P.drop b := by
+    have h1 := (List.take_append_drop (b - a) (P.drop a)).symm
+    rw [List.drop_drop, show a + (b - a) = b by omega] at h1
+    exact h1
+  rw [this, List.count_append]
+  omega
+
+/-- cuts with fewer base slashes after them lie further right -/
+theorem cut_order {S P : Octets} {c1 k1 c2 k2 : Nat} (h1 : CutOK S P c1 k1) (h2 : CutOK S P c2 k2) (hk : k1 < k2) :
+    c2 ≤ c1 := by
+  apply Nat.le_of_not_gt
+  intro hlt
+  have := count_drop_mono P (a := c1 - S.length) (b := c2 - S.length) (by omega)
+  rw [h1.2.2.2, h2.2.2.2] at this
+  omega
+
 /-- `pathBranch_cut` with the INPUT-side condition `hclean` turned into `cleanTail` of the emitted tail -/
 theorem pathBranch_cut_clean {base : Octets} {n : Nat} {iri : Octets} {ins : Ins} {t : Octets}
     (hs : (split base).scheme.isSome)
     (h : pathBranch (new base n) iri (lcp base iri) = .some ins t)
     (hpr : (new base n).pseudoroot > (preStr (split base)).length)
-    (hclean : ∀ c, (preStr (split base)).length < c → c ≤ lcp base iri → base[c - 1]? = some '/' →
-      cleanRel (iri.drop c) = true) :
+    (hclean : ∀ c, (new base n).pseudoroot ≤ c → (preStr (split base)).length < c → c ≤ lcp base iri →
+      base[c - 1]? = some '/' → cleanRel (iri.drop c) = true) :
     ∃ c k, CutOK (preStr (split base)) (split base).path c k ∧ c ≤ lcp base iri ∧ t = iri.drop c ∧ InsOK ins k t ∧
       cleanTail ins t = true := by
   obtain ⟨cuts1, cuts2⟩ := new_cuts base n hs
   obtain ⟨hl, hc⟩ := pathBranch_cases h
   have hli := lcp_le_right base iri
-  have clean_at : ∀ c k, CutOK (preStr (split base)) (split base).path c k → c ≤ lcp base iri →
-      cleanRel (iri.drop c) = true := by
-    intro c k hcut hle
-    exact hclean c hcut.1 hle (base_get_cut hcut)
+  have clean_at : ∀ c k, CutOK (preStr (split base)) (split base).path c k → (new base n).pseudoroot ≤ c →
+      c ≤ lcp base iri → cleanRel (iri.drop c) = true := by
+    intro c k hcut hge hle
+    exact hclean c hge hcut.1 hle (base_get_cut hcut)
+  have hcutpr := cuts2 hpr
+  have slash_ge : ∀ (nb slash : Nat), (new base n).slashes[nb]? = some slash → (new base n).pseudoroot ≤ slash + 1 := by
+    intro nb slash hget
+    have hlt : nb < (new base n).slashes.length := (List.getElem?_eq_some_iff.mp hget).1
+    exact cut_order (cuts1 nb slash hget) hcutpr hlt
   rcases hc with ⟨slash, hfb, hsl, hi⟩ | ⟨nb, slash, hnb, hfb, hsl, hi⟩ | ⟨_, hemp, t1, hsl1, hsl, hi⟩ | ⟨_, hne, hsl, hi⟩
   · obtain ⟨_, _, hget, hgt, _⟩ := firstBelow_bounds hfb
     have hcut := cuts1 0 slash (by simpa using hget)
     have ht := sliceFrom_some hsl
-    have hcl := clean_at _ _ hcut (by omega)
+    have hcl := clean_at _ _ hcut (slash_ge 0 slash (by simpa using hget)) (by omega)
     rw [← ht] at hcl
     refine ⟨slash + 1, 0, hcut, by omega, ht, ?_, ?_⟩
     · split at hi
@@ -104,7 +126,7 @@ theorem pathBranch_cut_clean {base : Octets} {n : Nat} {iri : Octets} {ins : Ins
   · obtain ⟨_, _, hget, hgt, _⟩ := firstBelow_bounds hfb
     have hcut := cuts1 nb slash (by simpa using hget)
     have ht := sliceFrom_some hsl
-    have hcl := clean_at _ _ hcut (by omega)
+    have hcl := clean_at _ _ hcut (slash_ge nb slash (by simpa using hget)) (by omega)
     rw [← ht] at hcl
     refine ⟨slash + 1, nb, hcut, by omega, ht, ?_, ?_⟩
     · left; exact ⟨hi, by omega⟩
@@ -113,7 +135,7 @@ theorem pathBranch_cut_clean {base : Octets} {n : Nat} {iri : Octets} {ins : Ins
     have ht1 := sliceFrom_some hsl1
     have hcut : CutOK (preStr (split base)) (split base).path (new base n).pseudoroot 0 := by
       simpa [hemp] using cuts2 hpr
-    have hcl := clean_at _ _ hcut hl
+    have hcl := clean_at _ _ hcut (Nat.le_refl _) hl
     rw [← ht] at hcl
     -- the octet before pseudoroot is the '/' of the base, also in the IRI
     have hslash : startsSlash t1 = true := by
@@ -146,7 +168,7 @@ theorem pathBranch_cut_clean {base : Octets} {n : Nat} {iri : Octets} {ins : Ins
         rw [ht]; exact drop_ne_nil (by omega) hcond.1
   · have ht := sliceFrom_some hsl
     have hcut := cuts2 hpr
-    have hcl := clean_at _ _ hcut hl
+    have hcl := clean_at _ _ hcut (Nat.le_refl _) hl
     rw [← ht] at hcl
     have hlen : 1 ≤ (new base n).slashes.length := by
       cases hsl' : (new base n).slashes with
@@ -157,27 +179,20 @@ theorem pathBranch_cut_clean {base : Octets} {n : Nat} {iri : Octets} {ins : Ins
     · exact cleanTail_of_cleanRel hcl (Or.inl ⟨_, hi, hlen⟩)
 
 
-theorem cleanSuffixes_spec {base iri : Octets} (hs : (split base).scheme.isSome) (h : cleanSuffixes base iri = true) :
-    ∀ c, (preStr (split base)).length < c → c ≤ lcp base iri → base[c - 1]? = some '/' →
+theorem cleanSuffixes_spec {lo : Nat} {base iri : Octets} (hs : (split base).scheme.isSome)
+    (h : cleanSuffixes lo base iri = true) :
+    ∀ c, lo ≤ c → (preStr (split base)).length < c → c ≤ lcp base iri → base[c - 1]? = some '/' →
       cleanRel (iri.drop c) = true := by
-  intro c h1 h2 h3
+  intro c h0 h1 h2 h3
   unfold cleanSuffixes at h
   simp only [List.all_eq_true, List.mem_range] at h
   have := h c (by omega)
   rw [pathBegin_eq hs] at this
-  simpa [h1, h3] using this
+  simpa [h0, h1, h3] using this
 
-/-- INPUT-side version of the path branches: rooted dot-free base path, common prefix ending strictly inside the base
-path at or after `pseudoroot`, clean suffixes -/
-theorem inverse_path_input {base : Octets} {n : Nat} {iri : Octets}
-    (hs : (split base).scheme.isSome) (hb : utf8Shaped 0 base = true) (hi : utf8Shaped 0 iri = true)
-    (hroot : startsSlash (split base).path = true) (hbd : noDotSegs (split base).path = true)
-    (hl0 : lcp base iri ≥ (new base n).pseudoroot) (hl1 : lcp base iri < (new base n).path_end)
-    (hclean : cleanSuffixes base iri = true) :
-    ∃ ins t, relativize (new base n) iri = .some ins t ∧ resolve base (ins.str ++ t) = iri ∧
-      (split (ins.str ++ t)).scheme = none ∧ (split (ins.str ++ t)).authority = none ∧
-      countDotDot (ins.str ++ t) ≤ n := by
-  have hbase := new_base base n
+/-- a rooted base path puts `pseudoroot` strictly inside the path -/
+theorem pseudoroot_gt_of_rooted {base : Octets} (n : Nat) (hs : (split base).scheme.isSome)
+    (hroot : startsSlash (split base).path = true) : (new base n).pseudoroot > (preStr (split base)).length := by
   obtain ⟨P', hP⟩ : ∃ P', (split base).path = '/' :: P' := by
     cases hp : (split base).path with
     | nil => rw [hp] at hroot; simp [startsSlash] at hroot
@@ -187,17 +202,36 @@ theorem inverse_path_input {base : Octets} {n : Nat} {iri : Octets}
       split at hroot
       · rename_i heq; injection heq with h1 h2; subst h1; exact ⟨xs, rfl⟩
       · cases hroot
+  have hd := base_decomp base
+  rcases new_pseudoroot_cases base n hs with h | ⟨_, h⟩
+  · exact h
+  · rw [List.append_assoc, List.append_assoc] at hd
+    rw [drop_of_decomp hd, hP] at h
+    simp [startsSlash] at h
+
+/-- `inverse_path_input` with `pseudoroot` inside the path instead of a rooted path (covers rootless bases too) -/
+theorem inverse_path_input {base : Octets} {n : Nat} {iri : Octets}
+    (hs : (split base).scheme.isSome) (hb : utf8Shaped 0 base = true) (hi : utf8Shaped 0 iri = true)
+    (hbd : noDotSegs (split base).path = true)
+    (hpr : (new base n).pseudoroot > (preStr (split base)).length)
+    (hl0 : lcp base iri ≥ (new base n).pseudoroot) (hl1 : lcp base iri ≤ (new base n).path_end)
+    (hl2 : lcp base iri < (new base n).query_end)
+    (hl3 : lcp base iri < (new base n).path_end ∨
+      (iri.length ≠ (new base n).path_end ∧ startsQH (iri.drop (new base n).path_end) = false))
+    (hclean : cleanSuffixes (new base n).pseudoroot base iri = true) :
+    ∃ ins t, relativize (new base n) iri = .some ins t ∧ resolve base (ins.str ++ t) = iri ∧
+      (split (ins.str ++ t)).scheme = none ∧ (split (ins.str ++ t)).authority = none ∧
+      countDotDot (ins.str ++ t) ≤ n := by
+  have hbase := new_base base n
+  have hpne : (split base).path ≠ [] := by
+    intro hp
+    have := (new_empty_path base n hs hp).2.1
+    omega
   have hx : authEndsMultibyteNoPath base = false := by
     unfold authEndsMultibyteNoPath
-    simp only [hP]
-    cases (split base).authority <;> simp
-  have hd := base_decomp base
-  have hpr : (new base n).pseudoroot > (preStr (split base)).length := by
-    rcases new_pseudoroot_cases base n hs with h | ⟨_, h⟩
-    · exact h
-    · rw [List.append_assoc, List.append_assoc] at hd
-      rw [drop_of_decomp hd, hP] at h
-      simp [startsSlash] at h
+    cases hp : (split base).path with
+    | nil => exact absurd hp hpne
+    | cons x xs => simp only [hp]; cases (split base).authority <;> simp
   have h1 : relativize (new base n) iri ≠ .none := some_inside (by rw [hbase]; exact hl0)
   have h2 := no_panic_utf8 (n := n) hs hb hi hx
   cases h : relativize (new base n) iri with
@@ -209,10 +243,15 @@ theorem inverse_path_input {base : Octets} {n : Nat} {iri : Octets}
     have hqe := new_query_end base n hs
     have hle : (new base n).path_end ≤ (new base n).query_end := by
       rw [hpe, hqe]; simp [List.length_append]
-    rcases relativize_cases h with ⟨_, c1, _⟩ | ⟨_, _, c2, _⟩ | ⟨_, _, c3, _⟩ | ⟨_, _, _, hp⟩
+    rcases relativize_cases h with ⟨_, c1, _⟩ | ⟨_, _, c2, _⟩ | ⟨_, _, c3, hsl, hq⟩ | ⟨_, _, _, hp⟩
     · rw [hbase] at c1; omega
     · rw [hbase] at c2; omega
-    · rw [hbase] at c3; omega
+    · rw [hbase] at c3
+      rcases hl3 with hlt | ⟨hne, hnq⟩
+      · omega
+      · rcases hq with hq | hq
+        · exact absurd hq hne
+        · rw [sliceFrom_some hsl, hnq] at hq; cases hq
     · rw [hbase] at hp
       obtain ⟨c, k, hcut, hcl, ht, hins, hct⟩ := pathBranch_cut_clean hs hp hpr (cleanSuffixes_spec hs hclean)
       have hiri := iri_of_cut hcl
@@ -224,5 +263,152 @@ theorem inverse_path_input {base : Octets} {n : Nat} {iri : Octets}
       | nothing => simp [insUps]
       | dotSlash => simp [insUps]
       | up j => exact (inserted_le h).2
+
+/-- the directory-extension case from the inputs -/
+theorem inverse_extension_input {base : Octets} {n : Nat} {iri : Octets}
+    (hb : utf8Shaped 0 base = true) (hi : utf8Shaped 0 iri = true) (hc : extInputCase base n iri = true) :
+    ∃ ins t, relativize (new base n) iri = .some ins t ∧ resolve base (ins.str ++ t) = iri ∧
+      (split (ins.str ++ t)).scheme = none ∧ (split (ins.str ++ t)).authority = none ∧
+      countDotDot (ins.str ++ t) ≤ n := by
+  unfold extInputCase at hc
+  simp only [Bool.and_eq_true, decide_eq_true_eq, beq_iff_eq, Bool.not_eq_true', List.isEmpty_eq_false_iff] at hc
+  obtain ⟨⟨⟨⟨⟨⟨⟨hs, hbd⟩, hq⟩, hdir⟩, hl⟩, hcr⟩, hne⟩, hqh⟩ := hc
+  have hbase := new_base base n
+  obtain ⟨bqe, _⟩ := new_qe_pe_boundary base n hs
+  have h : relativize (new base n) iri = .some .nothing (iri.drop (new base n).query_end) := by
+    unfold relativize
+    simp only [hbase, hl, if_true]
+    rw [withSlice_of_boundary (icb_transfer hb hi hl bqe)]
+  have hct : cleanTail .nothing (iri.drop (new base n).query_end) = true :=
+    cleanTail_of_cleanRel hcr (Or.inr (Or.inr ⟨rfl, hne, hqh⟩))
+  obtain ⟨r1, r2, r3, r4⟩ := inverse_extension hs hbd h hl (by simpa using hq) hdir hct
+  exact ⟨_, _, h, r1, r2, r3, by rw [r4]; simp [insUps]⟩
+
+
+theorem lcp_self_append' (x a b : Octets) : lcp (x ++ a) (x ++ b) ≥ x.length := by
+  rw [lcp_append_left]; omega
+
+/-- same document from the inputs: `cleanCase` holds (regions Q / F) -/
+theorem same_doc_clean {base : Octets} {n : Nat} {iri : Octets} {t : Octets}
+    (hs : (split base).scheme.isSome)
+    (h1 : (split iri).scheme = (split base).scheme) (h2 : (split iri).authority = (split base).authority)
+    (h3 : (split iri).path = (split base).path)
+    (hq : (split iri).query = (split base).query ∨ (split base).query = none ∨
+      ((split iri).query.isSome ∧ lcp base iri < (new base n).query_end))
+    (ht : relativize (new base n) iri = .some .nothing t) :
+    cleanCase base n iri = true := by
+  have hpe := new_path_end base n hs
+  have hqe := new_query_end base n hs
+  have hd := base_decomp base
+  have hdi := base_decomp iri
+  have hpre : preStr (split iri) = preStr (split base) := by
+    simp [preStr, schemeStr, authStr, h1, h2]
+  rw [hpre, h3] at hdi
+  have hlp : lcp base iri ≥ (new base n).path_end := by
+    rw [hpe]; conv => lhs; rw [hd, hdi]
+    rw [List.append_assoc, List.append_assoc _ _ (fragStr (split iri))]
+    exact lcp_self_append' _ _ _
+  have hdropp : iri.drop (new base n).path_end = queryStr (split iri) ++ fragStr (split iri) := by
+    rw [hpe]; conv => lhs; rw [hdi]
+    rw [List.append_assoc, List.drop_left]
+  unfold cleanCase
+  simp only [ht, hs, Bool.true_and]
+  rcases hq with hq | hq | ⟨hqi, hlt⟩
+  · have hQ : queryStr (split iri) = queryStr (split base) := by simp [queryStr, hq]
+    rw [hQ] at hdi
+    have hl : lcp base iri ≥ (new base n).query_end := by
+      rw [hqe]; conv => lhs; rw [hd, hdi]
+      exact lcp_self_append' _ _ _
+    have hdrop : iri.drop (new base n).query_end = fragStr (split iri) := by
+      rw [hqe]; conv => lhs; rw [hdi]
+      rw [List.drop_left]
+    have hF : ((iri.drop (new base n).query_end).isEmpty || startsWith '#' (iri.drop (new base n).query_end)) = true := by
+      rw [hdrop]; unfold fragStr fragO
+      cases (split iri).fragment <;> simp [startsWith]
+    simp [hl, hF]
+  · have hQb : queryStr (split base) = [] := by simp [queryStr, queryO, hq]
+    have hqp : (new base n).query_end = (new base n).path_end := by rw [hqe, hpe, hQb]; simp
+    cases hqi : (split iri).query with
+    | none =>
+      have hF : ((iri.drop (new base n).query_end).isEmpty || startsWith '#' (iri.drop (new base n).query_end)) = true := by
+        rw [hqp, hdropp]; unfold queryStr fragStr queryO fragO
+        rw [hqi]
+        cases (split iri).fragment <;> simp [startsWith]
+      have hl' : lcp base iri ≥ (new base n).query_end := by rw [hqp]; exact hlp
+      simp [hl', hF]
+    | some q =>
+      have hQ : startsWith '?' (iri.drop (new base n).path_end) = true := by
+        rw [hdropp]; unfold queryStr queryO; rw [hqi]; simp [startsWith]
+      simp [hlp, hQ, hq]
+  · have hQ : startsWith '?' (iri.drop (new base n).path_end) = true := by
+      rw [hdropp]; unfold queryStr queryO
+      cases hq' : (split iri).query with
+      | none => rw [hq'] at hqi; cases hqi
+      | some q => simp [startsWith]
+    simp [hlp, hQ, hlt]
+
+
+/-- with an empty base path every branch emits the IRI from the end of the authority on -/
+theorem empty_path_tail {base : Octets} {n : Nat} {iri : Octets} {ins : Ins} {t : Octets}
+    (hs : (split base).scheme.isSome) (hp : (split base).path = [])
+    (h : relativize (new base n) iri = .some ins t)
+    (hreg : (lcp base iri ≥ (new base n).query_end ∧ (split base).query = none) ∨
+      (lcp base iri < (new base n).query_end ∧ lcp base iri ≤ (new base n).path_end)) :
+    t = iri.drop (preStr (split base)).length := by
+  have hbase := new_base base n
+  obtain ⟨hsl0, hpr, hpe⟩ := new_empty_path base n hs hp
+  have hqe := new_query_end base n hs
+  rcases relativize_cases h with ⟨_, h1, hsl⟩ | ⟨_, h2a, h2, _⟩ | ⟨_, _, _, hsl, _⟩ | ⟨_, _, _, hpb⟩
+  · rw [hbase] at h1
+    rcases hreg with ⟨_, hq⟩ | ⟨hlt, _⟩
+    · have hqe' : (new base n).query_end = (preStr (split base)).length := by
+        rw [hqe, hp]; simp [queryStr, queryO, hq]
+      rw [← hqe']; exact sliceFrom_some hsl
+    · omega
+  · rw [hbase] at h2 h2a
+    rcases hreg with ⟨hge, hq⟩ | ⟨_, hle⟩
+    · have : (new base n).query_end = (new base n).path_end := by
+        rw [hqe, hpe, hp]; simp [queryStr, queryO, hq]
+      omega
+    · omega
+  · rw [← hpe]; exact sliceFrom_some hsl
+  · rw [hbase] at hpb
+    obtain ⟨hl, hc⟩ := pathBranch_cases hpb
+    rw [hsl0] at hc
+    rcases hc with ⟨slash, hfb, _⟩ | ⟨nb, slash, _, hfb, _⟩ | ⟨_, _, t1, _, hsl, _⟩ | ⟨_, hne, _⟩
+    · simp [firstBelow] at hfb
+    · simp [firstBelow] at hfb
+    · rw [← hpr]; exact sliceFrom_some hsl
+    · exact absurd rfl hne
+
+theorem inverse_empty_path_input {base : Octets} {n : Nat} {iri : Octets}
+    (hb : utf8Shaped 0 base = true) (hi : utf8Shaped 0 iri = true) (hc : emptyPathInputCase base n iri = true) :
+    ∃ ins t, relativize (new base n) iri = .some ins t ∧ resolve base (ins.str ++ t) = iri ∧
+      (split (ins.str ++ t)).scheme = none ∧ (split (ins.str ++ t)).authority = none ∧
+      countDotDot (ins.str ++ t) ≤ n := by
+  unfold emptyPathInputCase at hc
+  simp only [Bool.and_eq_true, Bool.or_eq_true, decide_eq_true_eq, Bool.not_eq_true', List.isEmpty_iff,
+    Option.isNone_iff_eq_none] at hc
+  obtain ⟨⟨⟨⟨⟨⟨⟨hs, hp⟩, hx⟩, hl⟩, hreg⟩, ht1⟩, ht2⟩, hnd⟩ := hc
+  rw [pathBegin_eq hs] at hl ht1 ht2 hnd
+  have hbase := new_base base n
+  obtain ⟨_, hpr, _⟩ := new_empty_path base n hs hp
+  have h1 : relativize (new base n) iri ≠ .none := some_inside (by rw [hbase, hpr]; exact hl)
+  have h2 := no_panic_utf8 (n := n) hs hb hi hx
+  cases h : relativize (new base n) iri with
+  | panic => exact absurd h h2
+  | none => exact absurd h h1
+  | some ins t =>
+    have htd := empty_path_tail hs hp h hreg
+    rw [← htd] at ht1 ht2 hnd
+    obtain ⟨t', ht'⟩ := startsWith_cons ht1
+    have ht2' : startsWith '/' t' = false := by rw [ht'] at ht2; simpa using ht2
+    obtain ⟨r1, r2, r3, r4⟩ := inverse_empty_path hs hp h hreg t' ht' ht2' hnd
+    refine ⟨ins, t, rfl, r1, r2, r3, ?_⟩
+    rw [r4]
+    cases ins with
+    | nothing => simp [insUps]
+    | dotSlash => simp [insUps]
+    | up j => exact (inserted_le h).2
 
 end SophiaProofs.Relativize
